@@ -81,6 +81,7 @@ def small_sample(world, extra=None):
         "params": world.get("params"),
         "obs": world.get("obs"),
         "faults": world.get("faults"),
+        "clock": {"t0": (world.get("clock") or {}).get("t0"), "tail": (world.get("clock") or {}).get("tail"), "first_steps": ((world.get("clock") or {}).get("steps") or [])[:12], "expire_at_read": (world.get("clock") or {}).get("expire_at_read")},
     }
     if extra:
         s.update(extra)
